@@ -92,11 +92,12 @@ type c13State struct {
 	closed  bool
 	cons    []*simrt.Task
 	holding int // priq: consumers between a wait-channel receive and the end of their Pop
+	waiting map[int]bool // priq: consumers inside their wait on WaitCh() (blocked, or woken and about to hold)
 }
 
 func runC13(t *testing.T, sci interface{}, keepLog bool) *hx.Outcome {
 	sc := sci.(*C13Scenario)
-	st := &c13State{kind: sc.Kind, added: map[int]bool{}, popped: map[int]bool{}}
+	st := &c13State{kind: sc.Kind, added: map[int]bool{}, popped: map[int]bool{}, waiting: map[int]bool{}}
 	var stop chan struct{} // created inside the bubble (a select on an outside channel is not durably blocked)
 
 	setup := func(s *simrt.Sim) {
@@ -106,7 +107,14 @@ func runC13(t *testing.T, sci interface{}, keepLog bool) *hx.Outcome {
 			}
 			if sc.Kind == KPriQ {
 				pq := st.q.(*priQ)
-				if st.holding == 0 {
+				holding := st.holding
+				for ci, c := range st.cons {
+					// a consumer that was woken out of its wait but has not run yet holds a signal already
+					if st.waiting[ci] && !c.Blocked() {
+						holding++
+					}
+				}
+				if holding == 0 {
 					n, ok := safeLen(pq)
 					if ok && n > 0 && len(pq.WaitCh()) != 1 {
 						s.Fail("priq-nonempty-but-waitch-unreadable",
@@ -162,6 +170,7 @@ func runC13(t *testing.T, sci interface{}, keepLog bool) *hx.Outcome {
 					case "wait":
 						pq := st.q.(*priQ)
 						got := false
+						st.waiting[ci] = true
 						select {
 						case <-pq.WaitCh():
 							got = true
@@ -172,6 +181,7 @@ func runC13(t *testing.T, sci interface{}, keepLog bool) *hx.Outcome {
 							case <-stop:
 								simrt.Woke(0)
 								s.Logf("c%d stop", ci)
+								st.waiting[ci] = false
 								return
 							default:
 							}
@@ -183,10 +193,12 @@ func runC13(t *testing.T, sci interface{}, keepLog bool) *hx.Outcome {
 							simrt.Woke(0)
 							if !got {
 								s.Logf("c%d stop", ci)
+								st.waiting[ci] = false
 								return
 							}
 						}
 						st.holding++
+						st.waiting[ci] = false
 						s.Count("priq-signal-received")
 						for i := 0; i < sc.HoldYields; i++ {
 							simrt.Yield()
